@@ -2,6 +2,8 @@
 // the real AbstractRosenbrockSolver / BackwardEuler templates driven by scripted, recording
 // policies (common/mocks.hpp) in an exact regime, and the real NormalizedError / IsConverged.
 #include "common/caseio.hpp"
+
+#include <cstring>
 #include "common/mocks.hpp"
 #include <cstdlib>
 
@@ -549,6 +551,7 @@ static void be_case(Toks& tk, Out& out, std::size_t ncells, std::size_t nspec)
       double t = 0.0, t_matrix = 0.0;
       std::size_t it = 0, n_succ = 0, n_fail = 0;
       bool mismatch = false, done = false;
+      std::vector<double> y_at_t;     // the iterate that ended the last step that advanced the time
       const std::size_t max_iter = params.max_number_of_steps_;
       for (std::size_t k = 0; k < alphas.size() && !done; ++k)
       {
@@ -571,6 +574,8 @@ static void be_case(Toks& tk, Out& out, std::size_t ncells, std::size_t nspec)
           continue;
         // the step ends here
         it = 0;
+        if (converged || n_fail >= params.time_step_reductions_.size())
+          y_at_t = ynew.AsVector();
         if (!converged)
         {
           n_succ = 0;
@@ -594,6 +599,23 @@ static void be_case(Toks& tk, Out& out, std::size_t ncells, std::size_t nspec)
           }
         }
         Hc = std::min(Hc, time_step - t);
+      }
+      // the State holds the solution at final_time_: the iterate that ended the last step that advanced the time
+      if (!mismatch && !y_at_t.empty() &&
+          (result.state_ == micm::SolverState::Converged || result.state_ == micm::SolverState::AcceptingUnconvergedIntegration))
+      {
+        bool same = true;
+        DM ref(ncells, nspec, 0.0);
+        ref.AsVector() = y_at_t;
+        for (std::size_t c = 0; c < ncells; ++c)
+          for (std::size_t s2 = 0; s2 < nspec; ++s2)
+          {
+            double a = state.variables_[c][s2], b = ref[c][s2];
+            if (std::memcmp(&a, &b, sizeof(double)) != 0)
+              same = false;
+          }
+        if (!same)
+          out.tok("ORACLE_STATE_NOT_THE_SOLUTION_AT_FINAL_TIME");
       }
       if (mismatch)
         out.tok("ORACLE_BE_STEP_SIZE_IN_MATRIX_NOT_AS_CONFIGURED");
